@@ -1,6 +1,7 @@
 """C02 - rounding never exceeds eps, never raises a rank, and leaves its operand intact."""
 import math
 import random
+import numpy as np
 import torch
 
 from .. import dense as dn
@@ -190,10 +191,14 @@ def observe(ctx, case, x, dx, srep, nrm, exact_ranks, eps, rmax, label, caps_wri
     snap = hooks.Snap(x)
     Rx = [int(r) for r in x.R]
     caps0 = caps_written if caps_written is not None else (list(rmax) if isinstance(rmax, list) else None)      # the caps as the caller wrote them (the list object itself may be reused across calls)
+    # numpy scalars are accepted for eps and for a scalar rmax
+    npk = case.get('seed', 0) % 5 == 3
+    eps_a = np.float64(eps) if npk else eps
+    rmax_a = np.int64(rmax) if (npk and isinstance(rmax, int)) else rmax
     if rmax is None:
-        y = ctx.lib('round', lambda t: t.round(eps), x)
+        y = ctx.lib('round', lambda t: t.round(eps_a), x)
     else:
-        y = ctx.lib('round', lambda t: t.round(eps, rmax), x)
+        y = ctx.lib('round', lambda t: t.round(eps_a, rmax_a), x)
     bad, how = hooks.imm_diff(x, snap)
     ctx.count('operand_checked_bit_identical')
     if bad:
